@@ -8,3 +8,5 @@ import PasskeyVerif.Props.C04
 import PasskeyVerif.Props.C05
 import PasskeyVerif.Props.C08
 import PasskeyVerif.Props.C11
+import PasskeyVerif.Props.C02
+import PasskeyVerif.Props.C03
